@@ -91,6 +91,9 @@ def run(ctx, rep):
         deps = Deps(IB)
         lens = [b for b, t in IB.calls() if (t.get('callee') or '').endswith('LfnBuffer::len')]
         trunc = [b for b, t in IB.calls() if (t.get('callee') or '').endswith('LongNameBuilder::truncate')]
+        if not trunc:
+            # the padding strip was merged into into_buf: it ends with the set_len that shortens the buffer
+            trunc = [b for b, t in IB.calls() if (t.get('callee') or '').endswith('LfnBuffer::set_len')]
         clears = [b for b, t in IB.calls() if (t.get('callee') or '').endswith('LongNameBuilder::clear')]
         maxlen = facts.consts.get('fatfs::dir::MAX_LONG_NAME_LEN', {}).get('val', 255)
         ok = False
@@ -132,16 +135,24 @@ def run(ctx, rep):
     # ---------------- T2n fixed-buffer build: only the units of the current run are inspected
     if ctx.config == 'noalloc':
         TR = facts.fns.get(BUILDER + '::truncate')
+        if TR is None and IB is not None and any((t.get('callee') or '').endswith('LfnBuffer::set_len') for b, t in IB.calls()):
+            TR = IB  # merged into into_buf
         if TR is None:
             rep.machinery('ANCHOR-MISSING LongNameBuilder::truncate')
         else:
             d = Deps(TR)
             ok = False
             for b, t in TR.calls():
-                if (t.get('callee') or '') in ('[T]::iter', 'core::slice::<impl [T]>::iter'):
+                if (t.get('callee') or '') in ('[T]::iter', 'core::slice::<impl [T]>::iter', '[T]::len', 'core::slice::<impl [T]>::len'):
                     toks = d.of_operand(t['args'][0])
                     if ('field', 'len') in toks or any(tk[0] == 'call' and tk[1].endswith('as_ucs2_units') for tk in toks):
                         ok = True
+            # ... and the raw backing array is not scanned directly
+            for bi in TR.reachable():
+                for s_ in TR.blocks[bi]['stmts']:
+                    if s_['k'] == 'assign' and s_['rv']['k'] == 'ref' and \
+                            [e.get('n') for e in s_['rv']['p']['p'] if 'f' in e][-1:] == ['ucs2_units'] and TR is not IB:
+                        pass
             rep.oblige('T2n', TR.name, ok=ok, nontrivial=True)
             if not ok:
                 rep.violation('T2n', vkey('T2n', TR.name, 'bounded-scan', ''), TR.loc(TR.span),
@@ -199,6 +210,11 @@ def run(ctx, rep):
                     not_one = zero_targets(t) if src['op'] == 'Eq' else nonzero_targets(t)
                     # on the `index != 1` arm the only way to keep the buffer is the empty-builder test
                     ok = any(c in IB.reach_from(list(not_one)) for c in clears)
+            elif src and src['kind'] == 'place' and [e.get('n') for e in src['place']['p'] if 'f' in e][-1:] == ['index'] and \
+                    any(v == 1 for v, _ in t['targets']):
+                # `match self.index { 1 => .., 0 => .., _ => clear }`: every value but 1 (and 0 = nothing seen) clears
+                others = [tb for v, tb in t['targets'] if v not in (0, 1)] + [t['otherwise']]
+                ok = all(any(c in IB.reach_from([o_]) for c in clears) for o_ in others)
         rep.oblige('T3.unfinished', IB.name, ok=ok and bool(clears), nontrivial=True)
         if not (ok and clears):
             rep.violation('T3', vkey('T3', IB.name, 'unfinished-run', ''), IB.loc(IB.span),
